@@ -98,11 +98,16 @@ def fresh_assumed(ex, st, ty, name):
     return v
 
 
+col_vals = z3.Function('col_vals', sort_of(DF), I, sort_of(LV))      # values of the column at position p
+isnull_list = z3.Function('isnull_list', sort_of(LV), sort_of(LB))
+notnull_list = z3.Function('notnull_list', sort_of(LV), sort_of(LB))
+
+
 def column_position(ex, st, cols, name, node, label='column-exists'):
     """position p of column `name` (first occurrence); KeyError obligation if absent."""
     nm = to_val(name).t
     ex.oblige(st, 'safety', label, L_has(LV, cols.t, nm), node)
-    p = z3.Int(fresh_name('colpos'))
+    p = col_index(cols.t, nm)
     j = z3.Int('j!cp')
     st.assume(z3.And(p >= 0, p < L_len(LV, cols.t), L_get(LV, cols.t, p) == nm))
     st.assume(z3.ForAll([j], z3.Implies(z3.And(j >= 0, j < p), L_get(LV, cols.t, j) != nm)))
@@ -200,9 +205,12 @@ def df_column(ex, st, df, name, node):
     p = column_position(ex, st, cols, name, node)
     rows = rec_field(df, 'rows')
     j = z3.Int('j!col')
-    vals = z3.Lambda([j], L_get(LV, L_get(ROWS, rows.t, j), p))
-    ser = R_mk(SER, vals=L_mk(LV, L_len(ROWS, rows.t), vals),
-               dtype=L_get(LV, R_get(DF, df.t, 'dtypes'), p), index=R_get(DF, df.t, 'index'))
+    vals = col_vals(df.t, p)
+    st.assume(L_len(LV, vals) == L_len(ROWS, rows.t))
+    st.assume(z3.ForAll([j], z3.Implies(z3.And(j >= 0, j < L_len(ROWS, rows.t)),
+                                        L_get(LV, vals, j) == L_get(LV, L_get(ROWS, rows.t, j), p)),
+                        patterns=[L_get(LV, vals, j), L_get(ROWS, rows.t, j)]))
+    ser = R_mk(SER, vals=vals, dtype=L_get(LV, R_get(DF, df.t, 'dtypes'), p), index=R_get(DF, df.t, 'index'))
     note(ex, 'df[name] is the column as a Series (values in row order, same index, its dtype)')
     return V(SER, ser)
 
@@ -337,8 +345,11 @@ def m_unique(ex, st, recv, args, kw, e):
     i, j = z3.Ints('i!u j!u')
     st.assume(z3.And(L_len(LV, u.t) == k, k >= 0, k <= n, z3.Implies(n > 0, k >= 1)))
     # k == n  iff  the values are pairwise distinct
-    st.assume((k == n) == z3.ForAll([i, j], z3.Implies(z3.And(i >= 0, i < j, j < n),
-                                                       L_get(LV, vals.t, i) != L_get(LV, vals.t, j))))
+    distinct = z3.ForAll([i, j], z3.Implies(z3.And(i >= 0, i < j, j < n),
+                                            L_get(LV, vals.t, i) != L_get(LV, vals.t, j)),
+                         patterns=[z3.MultiPattern(L_get(LV, vals.t, i), L_get(LV, vals.t, j))])
+    st.assume(z3.Implies(k == n, distinct))
+    st.assume(z3.Implies(distinct, k == n))
     note(ex, 'Series.unique() has one entry per distinct value (missing counting as one value)')
     return u
 
@@ -360,10 +371,15 @@ def isnull_of(ex, st, x, negate, e):
     if is_ser(x):
         vals = rec_field(x, 'vals')
         j = z3.Int('j!isnull')
+        f = notnull_list if negate else isnull_list
+        out = f(vals.t)
         body = N.val_isnull(L_get(LV, vals.t, j))
-        arr = z3.Lambda([j], z3.Not(body) if negate else body)
+        st.assume(L_len(LB, out) == L_len(LV, vals.t))
+        st.assume(z3.ForAll([j], z3.Implies(z3.And(j >= 0, j < L_len(LV, vals.t)),
+                                            L_get(LB, out, j) == (z3.Not(body) if negate else body)),
+                            patterns=[L_get(LB, out, j), L_get(LV, vals.t, j)]))
         note(ex, 'pd.isnull / notnull on a Series is elementwise')
-        return V(BSER, R_mk(BSER, vals=L_mk(LB, L_len(LV, vals.t), arr), index=R_get(SER, x.t, 'index')))
+        return V(BSER, R_mk(BSER, vals=out, index=R_get(SER, x.t, 'index')))
     raise Undecided('isnull of %r (line %d)' % (x.ty, e.lineno))
 
 
@@ -383,7 +399,10 @@ def b_sum(ex, st, args, kw, e):
         c = count_true(vals)
         j = z3.Int('j!sum')
         st.assume(z3.And(c >= 0, c <= n))
-        st.assume((c == 0) == z3.ForAll([j], z3.Implies(z3.And(j >= 0, j < n), z3.Not(L_get(LB, vals, j)))))
+        none_true = z3.ForAll([j], z3.Implies(z3.And(j >= 0, j < n), z3.Not(L_get(LB, vals, j))),
+                              patterns=[L_get(LB, vals, j)])
+        st.assume(z3.Implies(c == 0, none_true))
+        st.assume(z3.Implies(none_true, c == 0))
         note(ex, 'sum(boolean Series) counts the True entries')
         return V(INT, c)
     raise Undecided('sum() of %r (line %d)' % (x.ty, e.lineno))
@@ -400,6 +419,20 @@ def q_dataframe(ex, st, args, kw, e):
         raise Undecided('pd.DataFrame without columns=')
     if isinstance(rows.ty, ListT) and rows.t is None:
         rows = V(ROWS, L_empty(ROWS))
+    if isinstance(rows.ty, ListT) and isinstance(rows.ty.elem, TupleT) and \
+            all(isinstance(t, ValT) for t in rows.ty.elem.elems):
+        # list of tuples of cells: same as a list of rows of that width
+        tt = rows.ty.elem
+        w = len(tt.elems)
+        nrows = fresh(ROWS, 'tuple_rows')
+        jj, cc = z3.Ints('j!tr c!tr')
+        n0 = L_len(rows.ty, rows.t)
+        st.assume(L_len(ROWS, nrows.t) == n0)
+        st.assume(z3.ForAll([jj], z3.Implies(z3.And(jj >= 0, jj < n0), z3.And(
+            L_len(LV, L_get(ROWS, nrows.t, jj)) == w,
+            *[L_get(LV, L_get(ROWS, nrows.t, jj), z3.IntVal(q)) == T_get(tt, L_get(rows.ty, rows.t, jj), q)
+              for q in range(w)])), patterns=[L_get(ROWS, nrows.t, jj)]))
+        rows = nrows
     if rows.ty != ROWS:
         raise Undecided('pd.DataFrame from %r (line %d)' % (rows.ty, e.lineno))
     j = z3.Int('j!mkdf')
@@ -443,6 +476,32 @@ def q_concat(ex, st, args, kw, e):
     raise Undecided('pd.concat of %r (line %d)' % (lst.ty, e.lineno))
 
 
+def m_set_index(ex, st, recv, args, kw, e):
+    """df.set_index(name): that column becomes the index and is removed from the columns."""
+    if not is_df(recv):
+        raise Undecided('set_index on %r' % (recv.ty,))
+    cols, rows = rec_field(recv, 'cols'), rec_field(recv, 'rows')
+    p = column_position(ex, st, cols, args[0], e)
+    out = fresh_assumed(ex, st, DF, 'indexed')
+    n, k = L_len(ROWS, rows.t), L_len(LV, cols.t)
+    ocols, orows, oidx = rec_field(out, 'cols'), rec_field(out, 'rows'), rec_field(out, 'index')
+    j, c = z3.Ints('j!si c!si')
+    src = lambda q: z3.If(q < p, q, q + 1)
+    st.assume(z3.And(L_len(LV, ocols.t) == k - 1, L_len(ROWS, orows.t) == n))
+    st.assume(z3.ForAll([c], z3.Implies(z3.And(c >= 0, c < k - 1), L_get(LV, ocols.t, c) == L_get(LV, cols.t, src(c))),
+                        patterns=[L_get(LV, ocols.t, c)]))
+    st.assume(z3.ForAll([j], z3.Implies(z3.And(j >= 0, j < n),
+                                        L_get(LV, oidx.t, j) == L_get(LV, L_get(ROWS, rows.t, j), p)),
+                        patterns=[L_get(LV, oidx.t, j)]))
+    st.assume(z3.ForAll([j, c], z3.Implies(z3.And(j >= 0, j < n, c >= 0, c < k - 1),
+                                           L_get(LV, L_get(ROWS, orows.t, j), c) ==
+                                           L_get(LV, L_get(ROWS, rows.t, j), src(c))),
+                        patterns=[L_get(LV, L_get(ROWS, orows.t, j), c)]))
+    note(ex, 'df.set_index(name) moves that column into the index, other columns and row order unchanged')
+    return out
+
+
+N.METHODS['set_index'] = m_set_index
 N.METHODS['itertuples'] = m_itertuples
 N.METHODS['dropna'] = m_dropna
 N.METHODS['unique'] = m_unique
